@@ -8,6 +8,7 @@ import (
 	"go/token"
 	"go/types"
 	"sort"
+	"strconv"
 	"strings"
 )
 
@@ -599,8 +600,52 @@ func (c *Ctx) discoverWrites(s *State, body func(s *State)) (map[*types.Var]bool
 	d.written = map[string]bool{}
 	d.wvars = map[*types.Var]bool{}
 	d.nonFresh = map[string]int{}
+	d.nfRefs = map[string]map[string]int{}
+	d.nfWhole = map[string]bool{}
 	start := c.nfresh
 	defer func() {
+		// which pre-existing objects does the loop write, key by key? Known precisely when every such write goes through
+		// a term that means the same object in every iteration: a constant introduced before the loop that is not the
+		// entry value of a variable the loop assigns (the dry run starts from the entry values).
+		entryOfWritten := map[string]bool{}
+		for v := range d.wvars {
+			if val, ok := s.vars[v]; ok {
+				for _, t := range valueTerms(val) {
+					entryOfWritten[t] = true
+				}
+			}
+		}
+		c.lastNfRefs = map[string][]string{}
+		c.lastNfVague = map[string]bool{}
+		for k := range d.nfWhole {
+			c.lastNfVague[k] = true
+		}
+		for k, refs := range d.nfRefs {
+			for r, stamp := range refs {
+				if stamp > start {
+					continue // allocated by the loop itself
+				}
+				if !stableConst(r, start) || entryOfWritten[r] {
+					c.lastNfVague[k] = true
+					continue
+				}
+				c.lastNfRefs[k] = append(c.lastNfRefs[k], r)
+			}
+			sort.Strings(c.lastNfRefs[k])
+		}
+		if s.nfRefs != nil {
+			for k, refs := range d.nfRefs {
+				if s.nfRefs[k] == nil {
+					s.nfRefs[k] = map[string]int{}
+				}
+				for r, st := range refs {
+					s.nfRefs[k][r] = st
+				}
+			}
+			for k := range d.nfWhole {
+				s.nfWhole[k] = true
+			}
+		}
 		// outer loops see the inner loop's writes too (with the allocation stamps of the written objects)
 		if s.nonFresh != nil {
 			for k, v := range d.nonFresh {
@@ -651,6 +696,40 @@ func (c *Ctx) havocWrites(s *State, wv map[*types.Var]bool, wh map[string]bool) 
 				for b := range nonFresh {
 					if keyMatches(k, b) {
 						hit = true
+					}
+				}
+				if hit {
+					// written at pre-existing objects, all of them known loop-invariant terms: every other pre-existing object keeps its contents
+					vague := false
+					var refs []string
+					for b := range c.lastNfVague {
+						if keyMatches(k, b) || keyMatches(b, k) {
+							vague = true
+						}
+					}
+					for b, rs := range c.lastNfRefs {
+						if keyMatches(k, b) {
+							refs = append(refs, rs...)
+						}
+					}
+					for b := range nonFresh {
+						if keyMatches(k, b) {
+							if _, known := c.lastNfRefs[b]; !known {
+								vague = true
+							}
+						}
+					}
+					if !vague && len(refs) > 0 && len(refs) <= 4 {
+						sort.Strings(refs)
+						oldT := c.heapGet(s, k, c.heapSort(k))
+						c.heapHavoc(s, k, c.heapSort(k))
+						newT := s.heap[k]
+						var ne []string
+						for _, r := range refs {
+							ne = append(ne, not(eq("r", r)))
+						}
+						s.assume(fmt.Sprintf("(forall ((r Int)) (! (=> (and (= (select %s r) 1) %s) (= (select %s r) (select %s r))) :pattern ((select %s r))))", entryAlloc, strings.Join(ne, " "), newT, oldT, newT))
+						continue
 					}
 				}
 				if !hit {
@@ -749,6 +828,44 @@ func (c *Ctx) execFor(x *ast.ForStmt, s *State, label string) []Exit {
 	return c.loopCut(x, x.Pos(), s, li, iter, nil)
 }
 
+// stableConst: r is a plain constant symbol introduced before the loop (fresh-name counter <= start)
+func stableConst(r string, start int) bool {
+	if strings.ContainsAny(r, "() ") {
+		return false
+	}
+	i := strings.LastIndex(r, "~")
+	if i < 0 {
+		return false
+	}
+	n, err := strconv.Atoi(strings.TrimPrefix(r[i+1:], "e"))
+	return err == nil && n <= start
+}
+
+// valueTerms lists the SMT terms a value consists of.
+func valueTerms(v Value) []string {
+	switch x := v.(type) {
+	case IntV:
+		return []string{x.T}
+	case BoolV:
+		return []string{x.T}
+	case SliceV:
+		return []string{x.Ref, x.Off, x.Len, x.Cap}
+	case StructV:
+		var out []string
+		for _, f := range x.F {
+			out = append(out, valueTerms(f)...)
+		}
+		return out
+	case TupleV:
+		var out []string
+		for _, f := range x {
+			out = append(out, valueTerms(f)...)
+		}
+		return out
+	}
+	return nil
+}
+
 // loopCut implements the invariant cut. iter executes one iteration from the loop head: exits of kind
 // xFall/xContinue go back to the head, xBreak (matching) leave the loop.
 func (c *Ctx) loopCut(node ast.Stmt, pos token.Pos, s *State, li loopInfo, iter func(*State) []Exit, atHead func(*State)) []Exit {
@@ -760,6 +877,10 @@ func (c *Ctx) loopCut(node ast.Stmt, pos token.Pos, s *State, li loopInfo, iter 
 		c.variantAt[li.ord] = "0" // placeholder during the dry run
 	}
 	wv, wh := c.discoverWrites(s, func(d *State) { iter(d) })
+	if c.loopWrites == nil {
+		c.loopWrites = map[int]map[string]bool{}
+	}
+	c.loopWrites[li.ord] = wh
 	head := s
 	c.havocWrites(head, wv, wh)
 	if atHead != nil {
@@ -896,16 +1017,37 @@ func (c *Ctx) execRange(x *ast.RangeStmt, s *State, label string) []Exit {
 		visKey := fmt.Sprintf("L.visited%d", ord)
 		c.eng.setHeapSort(visKey, sA1)
 		c.heapSet(s, visKey, sA1, "((as const (Array Int Int)) 0)")
+		// ghost count of the iterations begun (= number of visited keys): nvisited() in contracts. Its relation to len(map)
+		// - below it while a key is left, equal to it at the regular exit - is a fact about finite sets, assumed only when
+		// nothing in the loop inserts into or deletes from a map of this type
+		cntKey := fmt.Sprintf("L.count%d", ord)
+		c.eng.setHeapSort(cntKey, sInt)
+		c.heapSet(s, cntKey, sInt, "0")
+		mapStable := func() bool {
+			wh, ok := c.loopWrites[ord]
+			return ok && !wh["D."+name] && !wh["C."+name]
+		}
+		mapLen := func(st *State) string {
+			return ite(eq(m, "0"), "0", sel(c.heapGet(st, "C."+name, sA1), m))
+		}
 		iter := func(st *State) []Exit {
 			var out []Exit
 			dom := sel(c.heapGet(st, "D."+name, sA2), m)
 			vis := c.heapGet(st, visKey, sA1)
+			cnt := c.heapGet(st, cntKey, sInt)
 			// exit: all visited
 			f := st.clone()
 			f.assume(or(eq(m, "0"), forall([]string{"k"}, "(! "+implies(eq(sel(dom, "k"), "1"), eq(sel(vis, "k"), "1"))+" :pattern ((select "+dom+" k)))")))
+			if c.dry == 0 && mapStable() {
+				f.assume(eq(cnt, mapLen(f)))
+			}
 			out = append(out, Exit{kind: xBreak, label: "$cond", s: f})
 			t := st
 			t.assume(not(eq(m, "0")))
+			if c.dry == 0 && mapStable() {
+				t.assume(lt(cnt, mapLen(t)))
+			}
+			c.heapSet(t, cntKey, sInt, add(cnt, "1"))
 			k := c.freshValue(t, "key", u.Key())
 			kt := c.keyTerm(k)
 			t.assume(and(eq(sel(dom, kt), "1"), eq(sel(vis, kt), "0")))
@@ -933,6 +1075,11 @@ func (c *Ctx) execRange(x *ast.RangeStmt, s *State, label string) []Exit {
 			h.assume(forall([]string{"k"}, "(! "+and(or(eq(sel(vis, "k"), "0"), eq(sel(vis, "k"), "1")), implies(eq(sel(vis, "k"), "1"), eq(sel(dom, "k"), "1")))+" :pattern ((select "+vis+" k)))"))
 			// a nil map has no keys: nothing has been visited
 			h.assume(implies(eq(m, "0"), eq(vis, "((as const (Array Int Int)) 0)")))
+			cnt := c.heapGet(h, cntKey, sInt)
+			h.assume(le("0", cnt))
+			if mapStable() {
+				h.assume(le(cnt, mapLen(h)))
+			}
 			c.note("map iteration is verified for an arbitrary enumeration order; the loop body is assumed not to insert into the ranged map")
 		}
 		return c.loopCut(x, x.Pos(), s, li, iter, atHead)
